@@ -210,6 +210,7 @@ class RefSem:
                 self.toks.setdefault(ev[2], []).append(fe)
         self.matched_instances = set()
         self.partial_at = []  # (property of the construct, what was expected) where the trace ended
+        self.stuck_at = {}  # task instance -> (property, what) its body was waiting for when its trace ended
 
     def v(self, prop, rule, msg):
         self.viol.append({"prop": prop, "rule": rule, "msg": msg})
@@ -254,9 +255,12 @@ class RefSem:
             self.v("C07", "unknown_task", "task-started for unknown task %r" % task_name)
             return "failed", None
         cur = Cursor(self.toks.get(inst_id, []))
+        n_partial = len(self.partial_at)
         try:
             last = self.block(task["body"], cur, {"inst": inst_id, "binds": {}}, ts_tok)
         except Partial:
+            if len(self.partial_at) > n_partial:
+                self.stuck_at[inst_id] = self.partial_at[-1]
             return "partial", None
         except Mismatch as m:
             self.v(m.prop, m.rule, "task instance %r (%s): %s" % (inst_id, task_name, m.msg))
@@ -475,10 +479,12 @@ class RefSem:
             raise Partial()
         fe = f["ev"]
         if not (fe[0] == "INV" and fe[1] == "tf" and fe[5] == cid):
+            if st == "done":
+                self.tf_missing(site["name"], cid, f)
             raise Mismatch(prop, "overlap", "task %s (line %d) still in progress but %s is issued"
                            % (site["name"], site["line"], tok_desc(f)))
         if st == "partial":
-            self.v("C07", "tf_before_body_done", "task-finished %s although the task's body has not completed" % tok_desc(f))
+            self.tf_early(cid, f)
         if st == "done" and last is not None:
             try:
                 self.handover(last, f, "task_finished", "C07")
@@ -497,10 +503,32 @@ class RefSem:
             if fe[0] == "INV" and fe[1] == "tf" and fe[5] in open_ids and fe[5] not in closed:
                 c, st = open_ids[fe[5]]
                 if st == "partial":
-                    self.v("C07", "tf_before_body_done", "task-finished %s although the task's body has not completed" % tok_desc(f))
+                    self.tf_early(fe[5], f)
                 closed[fe[5]] = cur.take()
             else:
                 return
+
+    LAST_PROP = {"cond": "C04", "cloop": "C05", "wloop": "C05", "par": "C03", "ploop": "C06", "svc": "C07", "call": "C07"}
+
+    def tf_early(self, cid, tok):
+        self.v("C07", "tf_before_body_done", "task-finished %s although the task's body has not completed" % tok_desc(tok))
+        if cid in self.stuck_at:
+            prop, what = self.stuck_at[cid]
+            if prop != "C07":
+                self.v(prop, "skipped_construct", "task instance %r is reported finished (%s) although %s of its body was never issued"
+                       % (cid, tok_desc(tok), what))
+
+    def tf_missing(self, task_name, cid, tok):
+        """the body of a called task completed but the next notification of its caller is not its task-finished"""
+        task = self.tm.get(task_name)
+        kind = task["body"][-1]["k"] if task and task["body"] else "svc"
+        self.v("C07", "tf_missing_after_body", "task %s (instance %r): body completed but task-finished is not issued (next: %s)"
+               % (task_name, cid, tok_desc(tok)))
+        p = self.LAST_PROP.get(kind)
+        if p and p != "C07":
+            self.v(p, "task_not_finished_after_" + kind,
+                   "task %s (instance %r) ends with a %s statement; it completed but the task is not reported finished (next: %s)"
+                   % (task_name, cid, kind, tok_desc(tok)))
 
     def join(self, cur, open_ids, lasts, prop, first, closed=None):
         """task-finished notifications of the branches, in any order"""
@@ -514,11 +542,15 @@ class RefSem:
                 raise Partial()
             fe = f["ev"]
             if not (fe[0] == "INV" and fe[1] == "tf" and fe[5] in remaining):
+                done_ids = [i for i, (c, st) in remaining.items() if st == "done"]
+                if len(done_ids) == len(remaining):
+                    for i in done_ids:
+                        self.tf_missing(remaining[i][0]["name"], i, f)
                 raise Mismatch(prop, "join_early", "%s is issued while branches %r of the fork at %s are unfinished"
                                % (tok_desc(f), sorted(remaining), tok_desc(first)))
             c, st = remaining.pop(fe[5])
             if st == "partial":
-                self.v("C07", "tf_before_body_done", "task-finished %s although the task's body has not completed" % tok_desc(f))
+                self.tf_early(fe[5], f)
             if st == "done" and lasts.get(fe[5]) is not None:
                 try:
                     self.handover(lasts[fe[5]], f, "task_finished", "C07")
@@ -668,6 +700,26 @@ def lifecycle(case, calls, flat, stats):
         else:
             # and it is the first notification of that call
             pass
+    # a completion delivered for an outstanding service must issue its service-finished in that very call
+    seen_ss = []
+    done_sf = set()
+    for ci, c in enumerate(calls):
+        op = c["op"]
+        before = set(seen_ss) - done_sf
+        for ev in c["out"]:
+            if ev[0] == "INV" and ev[2] == 0:
+                if ev[1] == "ss":
+                    seen_ss.append(ev[5])
+                elif ev[1] == "sf":
+                    done_sf.add(ev[5])
+        if op["op"] == "finish" and not c.get("exc") and op["n"] < len(seen_ss):
+            ident = seen_ss[op["n"]]
+            if ident in before and ident not in done_sf:
+                out.append({"prop": "C07", "rule": "sf_missing_on_delivery",
+                            "msg": "call %d delivers the completion of outstanding service %r but no service-finished notification is issued in it (returned %r)" % (ci, ident, c["ret"])})
+                for pp, what in (("C02", "lost wake-up: the statement after it can never start"), ("C01", "the order stalls")):
+                    out.append({"prop": pp, "rule": "completion_without_effect",
+                                "msg": "call %d delivers the completion of outstanding service %r but nothing happens (returned %r) - %s" % (ci, ident, c["ret"], what)})
     finished = run_finished(calls)
     if finished:
         for ident in ts:
@@ -825,32 +877,35 @@ def fanout(case, calls, flat, stats):
             if expect:
                 regs[k].append(fn)
             continue
-        # group consecutive INV events of one notification: key (kind, id); with re-entrant completion the
-        # group of a service-started notification is interrupted by the nested call, so collect per key in order
-        seen = {}
-        keyorder = []
+        # every notification invokes the registered listeners of its kind once each, in registration order;
+        # a re-entrant completion nests the groups of the notifications it causes inside the interrupted group
+        stack = []  # open groups: dict(kind, name, line, first_event, next_index, interrupted)
         for ev in c["out"]:
-            if ev[0] == "INV":
-                key = (ev[1], ev[4], ev[3]) if False else (ev[1], ev[5])
-                if key not in seen:
-                    seen[key] = []
-                    keyorder.append(key)
-                seen[key].append(ev)
-        for key in keyorder:
-            evs = seen[key]
-            fns = [e[2] for e in evs]
-            kind = key[0]
-            groups += 1
-            if fns != regs[kind]:
-                # ids may be renewed under later listeners after a re-entrant completion (known finding K17):
-                # then the group is split; judged by the caller through the shape predicate
-                out.append({"prop": "C20", "rule": "fanout", "msg": "call %d: notification %r invoked listeners %r, registered: %r" % (ci, key, fns, regs[kind])})
+            if ev[0] in ("FIRE",):
+                for g in stack:
+                    g["interrupted"] = True
+                continue
+            if ev[0] != "INV":
+                continue
+            kind, fn = ev[1], ev[2]
+            exp = regs[kind]
+            top = stack[-1] if stack else None
+            if top and top["kind"] == kind and top["key"] == (ev[3], ev[4]) and top["next"] < len(exp) and exp[top["next"]] == fn:
+                if not top["interrupted"] and ev[3:] != top["first"][3:]:
+                    out.append({"prop": "C20", "rule": "same_argument", "msg": "call %d: listeners of one %s notification saw different arguments %r vs %r" % (ci, kind, top["first"][3:7], ev[3:7])})
+                top["next"] += 1
+            elif exp and fn == exp[0]:
+                stack.append({"kind": kind, "key": (ev[3], ev[4]), "first": ev, "next": 1, "interrupted": False})
+                groups += 1
             else:
-                a0 = evs[0][3:]
-                for e in evs[1:]:
-                    if e[3:] != a0:
-                        out.append({"prop": "C20", "rule": "same_argument", "msg": "call %d: notification %r: listeners saw different arguments %r vs %r" % (ci, key, a0, e[3:])})
-                        break
+                out.append({"prop": "C20", "rule": "fanout", "msg": "call %d: listener %d of kind %s invoked out of turn at %r (registered order %r)" % (ci, fn, kind, ev[:6], exp)})
+                break
+            while stack and stack[-1]["next"] >= len(regs[stack[-1]["kind"]]):
+                stack.pop()
+        else:
+            if stack and not c.get("exc"):
+                g = stack[-1]
+                out.append({"prop": "C20", "rule": "fanout", "msg": "call %d: notification %r (%s) invoked only listeners %r of %r" % (ci, g["first"][3:6], g["kind"], regs[g["kind"]][: g["next"]], regs[g["kind"]])})
     stats["notification_groups"] = groups
     return out
 
